@@ -844,7 +844,32 @@ func (m *Machine) exec(in ssa.Instruction, state map[string]Vec) {
 		if all && len(first) == w {
 			m.setEnv(x, first)
 		} else {
-			m.setEnv(x, topVec(w))
+			// bit by bit: a bit that has the same value on every incoming edge keeps it (a header octet that a
+			// three-way switch gives zero, one or another flag bit keeps its type bits)
+			r := topVec(w)
+			okAll := len(first) == w
+			var vs []Vec
+			for _, e := range x.Edges {
+				v := m.val(e)
+				if len(v) != w {
+					okAll = false
+				}
+				vs = append(vs, v)
+			}
+			if okAll {
+				for j := 0; j < w; j++ {
+					same := true
+					for _, v := range vs[1:] {
+						if v[j] != vs[0][j] {
+							same = false
+						}
+					}
+					if same {
+						r[j] = vs[0][j]
+					}
+				}
+			}
+			m.setEnv(x, r)
 		}
 	case *ssa.BinOp:
 		m.setEnv(x, m.binop(x))
@@ -1596,6 +1621,40 @@ func (m *Machine) call(x *ssa.Call, state map[string]Vec) {
 				res = rs.Results[0]
 			} else if !vecEqual(res, rs.Results[0]) {
 				okRes = false
+			}
+		}
+		// two returns on the two sides of one test (`if b { return 1 << k }; return 0`): the result is the mux of
+		// the two values over the test's condition
+		if !okRes && len(sub.Returns) == 2 && len(sub.Returns[0].Results) > 0 && len(sub.Returns[1].Results) > 0 {
+			r0, r1 := sub.Returns[0], sub.Returns[1]
+			b0, b1 := r0.Ret.Block(), r1.Ret.Block()
+			d := b0.Idom()
+			for d != nil && !d.Dominates(b1) {
+				d = d.Idom()
+			}
+			if d != nil && len(d.Instrs) > 0 {
+				if iff, ok := d.Instrs[len(d.Instrs)-1].(*ssa.If); ok {
+					side := func(r *ssa.BasicBlock) int {
+						for i, sc := range d.Succs {
+							if sc == r || (len(sc.Preds) == 1 && sc.Dominates(r)) {
+								return i
+							}
+						}
+						return -1
+					}
+					s0, s1 := side(b0), side(b1)
+					tv, fv := r0.Results[0], r1.Results[0]
+					if s0 == 1 {
+						tv, fv = fv, tv
+					}
+					if c := sub.val(iff.Cond); len(c) == 1 && s0 >= 0 && s1 >= 0 && s0 != s1 && len(tv) == w && len(fv) == w {
+						mx := make(Vec, w)
+						for j := 0; j < w; j++ {
+							mx[j] = muxBit(c[0], tv[j], fv[j])
+						}
+						res, okRes = mx, true
+					}
+				}
 			}
 		}
 		if okRes && len(res) == w {
